@@ -4,6 +4,7 @@ package cache
 
 import (
 	"errors"
+	"sync"
 	"time"
 
 	"google.golang.org/protobuf/proto"
@@ -284,4 +285,45 @@ func VerifC14_LatencyFrame(h *zz.H) {
 		}
 		h.Assert(found, "C14: an update addressed to one target never adds leaves to another")
 	}
+}
+
+// VerifC14_RemoveReAdd: a target is removed while another goroutine adds it again and streams a
+// leaf into the new incarnation (a configuration reload racing a removal). Whatever the
+// interleaving, the change feed stays in step with the cache: replaying it reproduces exactly
+// what queries return (the old incarnation's whole-target delete is never announced after data
+// of the new one).
+func VerifC14_RemoveReAdd(h *zz.H) {
+	c := New([]string{vDev})
+	vSetClock(h, "now")
+	r := &c03Replayer{h: h}
+	var fmu sync.Mutex // a feed consumer is called from every writer's goroutine: it serialises itself
+	c.SetClient(func(l *ctree.Leaf) {
+		fmu.Lock()
+		defer fmu.Unlock()
+		if n, ok := l.Value().(*pb.Notification); ok && len(n.Update) > 0 {
+			if p := path.ToStrings(n.Update[0].Path, false); len(n.Prefix.GetElem()) == 0 && len(p) > 0 && p[0] == "meta" {
+				return
+			}
+		}
+		r.apply(l)
+	})
+	c.GnmiUpdate(vUpdate(vDev, []string{"old"}, 0, 1, vIntVal(1)))
+	done := make(chan bool, 2)
+	go func() {
+		c.Remove(vDev)
+		done <- true
+	}()
+	go func() {
+		// the re-add acts only once the removal has taken effect (an update racing the removal
+		// of its own target is outside the property: the collector stops a target's session
+		// before it removes the target)
+		if !c.HasTarget(vDev) {
+			c.Add(vDev)
+			c.GnmiUpdate(vUpdate(vDev, []string{"new"}, 0, 2, vIntVal(2)))
+		}
+		done <- true
+	}()
+	<-done
+	<-done
+	r.agrees(c)
 }
